@@ -168,6 +168,7 @@ type Trace struct {
 	StopIssuedOp           int
 	StopMode               string
 	StopReturned           bool
+	CancelTookEffect       bool // cancel: Err() was closed within the bounded wait, before Stop() was called
 	StopReturnedAt         int64
 	StopOutLen             int // items in the (v1) output channel when Stop returned
 	StopInFlight           int
